@@ -132,12 +132,24 @@ def conditional(I, R, Dy, Dx, name="c", cls="ConditionalGaussianPDF", args="full
     if diag:
         kw["Sigma"] = diag_matrix(f"Sigma({name})", R, Dy)
         return I.construct(cls, kw)
-    kw["Sigma"] = nf.atom(f"Sigma({name})", [R, Dy, Dy], sym=True, owner=name)
-    if args == "full":
+    parts = set(args.split("+")) if args != "full" else {"Sigma", "Lambda", "lndet"}
+    if "Sigma" in parts:
+        kw["Sigma"] = nf.atom(f"Sigma({name})", [R, Dy, Dy], sym=True, owner=name)
+    if "Lambda" in parts:
         kw["Lambda"] = nf.atom(f"Lambda({name})", [R, Dy, Dy], sym=True, owner=name)
+    if "lndet" in parts:
         kw["ln_det_Sigma"] = nf.atom(f"ln_det_Sigma({name})", [R], owner=name)
-        declare_pair(f"Sigma({name})", f"Lambda({name})", f"ln_det_Sigma({name})")
-    return I.construct(cls, kw)
+    # consistent user input: the given matrices are mutually inverse, the given log-determinant is that of Sigma
+    if "Sigma" in parts and "Lambda" in parts:
+        declare_pair(f"Sigma({name})", f"Lambda({name})", f"ln_det_Sigma({name})" if "lndet" in parts else None)
+    elif "lndet" in parts and "Sigma" in parts:
+        nf.ST.head[f"Sigma({name})"].sym = True
+        nf.ST.lndet[f"Sigma({name})"] = (1, f"ln_det_Sigma({name})")
+    elif "lndet" in parts and "Lambda" in parts:
+        nf.ST.lndet[f"Lambda({name})"] = (-1, f"ln_det_Sigma({name})")
+    o = I.construct(cls, kw)
+    o.meta["given"] = dict(kw)
+    return o
 
 
 def points(name, N, Dd):
